@@ -363,6 +363,14 @@ QueriesExact ==
 UniqueHandles == \A i, j \in DOMAIN ords : ords[i] = ords[j] => i = j
 DeadNotTarget == Ok(st) => \A p \in DOMAIN st.isTgt : st.eidx[p].t = NoTable => ~st.isTgt[p]
 
+\* C09: inside removal callbacks of Remove / Exchange the storage still represents the pre-state, every entity once
+CbProps == [][(hist' # hist /\ hist'[Len(hist')].op \in {"Remove", "Exchange"} /\ hist'[Len(hist')].rem # <<>> /\ Ok(st'))
+                 => LET o == hist'[Len(hist')]
+                        h == ords[o.e]
+                        cs == BRemoveCbState(st, h, SetOf(o.add), SetOf(o.rem),
+                                             [c \in DOMAIN o.tg |-> IF o.tg[c] = 0 THEN Zero ELSE ords[o.tg[c]]])
+                    IN Ok(cs) /\ EntityOnce(cs) /\ IndexOK(cs) /\ AbsEnt(cs) = gw.ent]_vars
+
 \* C15: after an unbounded Shrink capacities are within bounds and no work is left
 ShrinkProps == [][(hist' # hist /\ hist'[Len(hist')].op = "Shrink" /\ hist'[Len(hist')].mode = "all")
                     => (CapBoundsOK(st') /\ ~ShrinkHasWork(st'))]_vars
